@@ -49,6 +49,10 @@ NAMES = ["x", "y", "t", "u", "v", "w", "k", "D", "p0", "alpha", "z", "r"]
 MAX_VIOL_PER_CASE = 6
 
 
+def REF_EMPTY():
+    return RefTable(RefSpace([]), np.zeros((0, 0)))
+
+
 def gen_cases(seed, tier):
     rng = np.random.default_rng([seed, 12])
     n = 300 if tier == "quick" else 10000
@@ -316,7 +320,7 @@ class World:
             self.viol.append(viol(kind, msg, **mech))
 
     def note(self, op, **kw):
-        if len(self.trace) < 60:
+        if len(self.trace) < 10:
             d = {"op": op}
             d.update(kw)
             self.trace.append(d)
@@ -371,7 +375,13 @@ class World:
 
     def other_names(self, avoid, k):
         free = [n for n in NAMES if n not in avoid]
-        return [str(x) for x in self.rng.permutation(free)[:k]]
+        out = [str(x) for x in self.rng.permutation(free)[:k]] if free else []
+        i = 0
+        while len(out) < k:               # the pool is exhausted (long chains of joins / products): synthetic names
+            i += 1
+            if "n%d" % i not in avoid and "n%d" % i not in out:
+                out.append("n%d" % i)
+        return out
 
     # ---- comparison ------------------------------------------------------------------------------
     def diff(self, lib, ref, tol=0.0):
@@ -621,9 +631,12 @@ class World:
         lib, ref = self.pick()
         k = int(self.rng.integers(1, 3))
         news = self.other_names(ref.space.names, 2 * k)
+        if not news:                      # every name of the pool is already a column group of this table
+            return self.op_getitem()
+        k = min(k, len(news))
         parts = []
         for j in range(k):
-            nv = 1 if len(news) < 2 or self.rng.random() < 0.6 else 2
+            nv = 1 if len(news) < 2 + (k - 1 - j) or self.rng.random() < 0.6 else 2
             items = [(news.pop(), int(self.rng.choice([1, 2, 3]))) for _ in range(nv)]
             if self.rng.random() < 0.35 and ref.space.dim > 0:          # same total dim as the left part
                 items = [(items[0][0], ref.space.dim)] if ref.space.dim <= 3 else items
@@ -662,9 +675,9 @@ class World:
             o, r = parts[0]
             which = int(self.rng.integers(0, 4))
             if which == 0:
-                self.judged_call("join", "p.join(empty)", lambda: lib.join(E()), lambda: ref.copy(), nb=ref.nb, admit=False)
+                self.judged_call("join", "p.join(empty)", lambda: lib.join(E()), lambda: ref.join(REF_EMPTY()), nb=ref.nb, admit=False)
             elif which == 1:
-                self.judged_call("join", "empty.join(p)", lambda: E().join(lib), lambda: ref.copy(), nb=ref.nb, admit=False)
+                self.judged_call("join", "empty.join(p)", lambda: E().join(lib), lambda: REF_EMPTY().join(ref), nb=ref.nb, admit=False)
             elif which == 2:
                 self.judged_call("joined", "joined(p,empty,q)", lambda: self.Points.joined(lib, E(), o),
                                  lambda: ref.join(r), nb=ref.nb)
@@ -678,10 +691,10 @@ class World:
         u = self.rng.random()
         self.note("rowcat", batch=list(ref.batch))
         if u < 0.12:
-            self.judged_call("or", "p|empty", lambda: lib | E(), lambda: ref.copy(), nb=ref.nb, admit=False)
+            self.judged_call("or", "p|empty", lambda: lib | E(), lambda: ref.rowcat(REF_EMPTY()), nb=ref.nb, admit=False)
             return
         if u < 0.24:
-            self.judged_call("or", "empty|p", lambda: E() | lib, lambda: ref.copy(), nb=ref.nb, admit=False)
+            self.judged_call("or", "empty|p", lambda: E() | lib, lambda: REF_EMPTY().rowcat(ref), nb=ref.nb, admit=False)
             return
         if ref.isempty:
             return
@@ -1045,7 +1058,7 @@ class World:
     # ---- driver ------------------------------------------------------------------------------------
     OPS = [("getitem", 0.30), ("two_step", 0.07), ("setitem", 0.11), ("roundtrip", 0.05), ("join", 0.08),
            ("rowcat", 0.06), ("repeat", 0.04), ("unsqueeze", 0.04), ("arith", 0.07), ("eq", 0.05), ("iter", 0.02),
-           ("reject", 0.06), ("space", 0.05)]
+           ("reject", 0.06), ("space", 0.08)]
 
     def run(self):
         c = self.case
@@ -1087,7 +1100,7 @@ def run_case(case):
                          w.counters.get("op_setitem", 0) > 0)
     cls = "nb%d/v%d/d%d/%s/%s" % (len(case["batch"]), len(dims), max(dims), case["dtype"], bucket)
     return {"cls": cls, "judged": w.judged, "nontrivial": w.judged >= 8 and w.name_sel >= 1, "viol": w.viol,
-            "counters": w.counters, "trace": w.trace[:25]}
+            "counters": w.counters, "trace": w.trace[:10]}
 
 
 def sample_of(case, r):
